@@ -45,6 +45,10 @@ type Contract struct {
 	NoSafety bool
 	Reveal   []string
 	Implements string // key of the interface contract this method must satisfy
+	RFInvs     []*Clause // range-over-func loop invariants (Loop = ordinal of the iterator call)
+	YieldN     string    // producer contract: number of values yielded ...
+	YieldE     string    // ... and the k-th value (index variable k); second value for Seq2
+	YieldE2    string
 }
 
 type letDef struct {
@@ -105,7 +109,7 @@ var (
 var clauseKeywords = map[string]bool{
 	"property": true, "requires": true, "ensures": true, "assigns": true, "loop": true, "let": true,
 	"trusted": true, "pure": true, "fresh": true, "effects": true, "safety": true, "nosafety": true,
-	"implements": true, "spec": true, "ghost": true, "axiom": true, "lemma": true, "reveal": true, "smt": true, "func": true, "extern": true, "iface": true, "const": true, "end": true,
+	"implements": true, "rangefunc": true, "yields": true, "spec": true, "ghost": true, "axiom": true, "lemma": true, "reveal": true, "smt": true, "func": true, "extern": true, "iface": true, "const": true, "end": true,
 }
 
 // parseContractFile reads every //@ line of a file.
@@ -300,6 +304,26 @@ func (sp *Specs) parseContractFile(path string, pkgPath string) error {
 					for _, a := range splitTop(body, ',') {
 						cur.Assigns = append(cur.Assigns, strings.TrimSpace(a))
 					}
+				}
+			case "rangefunc":
+				// rangefunc N invariant EXPR   (variables: iter = elements processed so far)
+				lf := strings.Fields(body)
+				if len(lf) < 3 || lf[1] != "invariant" {
+					return fmt.Errorf("%s:%d: expected `rangefunc N invariant EXPR`", path, ln.n)
+				}
+				fmt.Sscanf(lf[0], "%d", &cl.Loop)
+				cl.Kind = "rfinv"
+				cl.Expr = strings.TrimSpace(strings.SplitN(body, "invariant", 2)[1])
+				cur.RFInvs = append(cur.RFInvs, cl)
+			case "yields":
+				// yields COUNT :: ELEM [:: ELEM2]     (index variable k)
+				parts := strings.Split(body, "::")
+				if len(parts) < 2 {
+					return fmt.Errorf("%s:%d: expected `yields COUNT :: ELEM`", path, ln.n)
+				}
+				cur.YieldN, cur.YieldE = strings.TrimSpace(parts[0]), strings.TrimSpace(parts[1])
+				if len(parts) > 2 {
+					cur.YieldE2 = strings.TrimSpace(parts[2])
 				}
 			case "reveal":
 				cur.Reveal = append(cur.Reveal, strings.Fields(body)...)
